@@ -188,6 +188,24 @@ pub fn run(ctx: &Ctx) -> i32 {
             check_case(ctx, st, tcs, Settings::new(f | extra[i / look.len()]));
         });
     }
+    // automata with thousands of states (limits / caps in the minimiser would show here)
+    {
+        let n_big = if ctx.thorough { 8 } else { 2 };
+        par_for(&ctx.run, n_big, |i, st| {
+            let mut rng = Rng::new(seed, 0x163_0000 + i as u64);
+            let letters: Vec<String> = "abcdefghijklmnopqrstuvwxyz".chars().map(|c| c.to_string()).collect();
+            let k = 56 + 6 * i;
+            let tcs: Vec<String> = (0..k).map(|_| (0..40).map(|_| rng.pick(&letters).clone()).collect()).collect();
+            st.count("thousands_of_states_inputs");
+            check_case(ctx, st, &tcs, Settings::new(0));
+        });
+        let det = gen::cluster_repeat_cases();
+        let fl = [REP, REP | WORD, REP | DIGIT, REP | ESC];
+        par_for(&ctx.run, det.len() * fl.len(), |i, st| {
+            st.count("cluster_repeat_cases");
+            check_case(ctx, st, &det[i % det.len()], Settings::new(fl[i / det.len()]));
+        });
+    }
     let n = if ctx.thorough { 200_000 } else { 8_000 };
     let alphabets: Vec<(String, Vec<String>)> = gen::ALPHABETS.iter().map(|a| (a.to_string(), gen::alphabet(a))).collect();
     par_for(&ctx.run, n, |i, st| {
